@@ -148,12 +148,74 @@ func allInstrsRaw(fn *ssa.Function, f func(ssa.Instruction)) {
 // factSet: values known to be a boolean constant / nil / non-nil on the path being explored
 // (results of a callee that returned constants, parameters bound to constant arguments).
 type factSet struct {
-	v    ssa.Value
-	kind int // 1 true, 2 false, 3 nil, 4 non-nil
-	next *factSet
+	v     ssa.Value
+	kind  int // 1 true, 2 false, 3 nil, 4 non-nil, 5 same value as alias (a phi entered along a known edge)
+	alias ssa.Value
+	next  *factSet
 }
 
+// aliasOf: the value a boolean phi stands for on the path being explored (itself if unknown).
+func (f *factSet) aliasOf(v ssa.Value) ssa.Value {
+	for i := 0; i < 4; i++ {
+		found := false
+		for x := f; x != nil; x = x.next {
+			if x.v == v && x.kind == 5 && x.alias != nil {
+				v, found = x.alias, true
+				break
+			}
+		}
+		if !found {
+			break
+		}
+	}
+	return v
+}
+
+// curFacts: path facts of the edge an edge filter is currently being asked about.
+var curFacts *factSet
+
 func (f *factSet) add(v ssa.Value, kind int) *factSet { return &factSet{v: v, kind: kind, next: f} }
+
+// without: the facts minus the one about v (v is being recomputed).
+func (f *factSet) without(v ssa.Value) *factSet {
+	if f == nil {
+		return nil
+	}
+	if f.v == v {
+		return f.next.without(v)
+	}
+	rest := f.next.without(v)
+	if rest == f.next {
+		return f
+	}
+	return &factSet{v: f.v, kind: f.kind, alias: f.alias, next: rest}
+}
+
+// multiTested: the boolean value decides more than one branch (directly or negated).
+func multiTested(v ssa.Value) bool {
+	if _, isConst := v.(*ssa.Const); isConst || v.Referrers() == nil {
+		return false
+	}
+	n := 0
+	var count func(x ssa.Value, d int)
+	count = func(x ssa.Value, d int) {
+		if x.Referrers() == nil || d > 2 {
+			return
+		}
+		for _, ref := range *x.Referrers() {
+			switch y := ref.(type) {
+			case *ssa.If:
+				n++
+			case *ssa.UnOp:
+				if y.Op == token.NOT {
+					count(y, d+1)
+				}
+			}
+		}
+	}
+	count(v, 0)
+	return n >= 2
+}
 
 func (f *factSet) get(v ssa.Value) int {
 	for x := f; x != nil; x = x.next {
@@ -189,6 +251,7 @@ func evalCond(cond ssa.Value, f *factSet) int {
 	if f == nil {
 		return 0
 	}
+	cond = f.aliasOf(cond)
 	if k := f.get(cond); k == 1 || k == 2 {
 		return k
 	}
@@ -311,6 +374,16 @@ func (s *ipSearch) scanF(b *ssa.BasicBlock, from int, stack []*ssa.Call, facts *
 			}
 		}
 		curStack = stack
+		if facts != nil {
+			if v, ok := in.(ssa.Value); ok && facts.get(v) != 0 {
+				_, isCall := in.(*ssa.Call)
+				_, isPhi := in.(*ssa.Phi)
+				_, isEx := in.(*ssa.Extract)
+				if !isCall && !isPhi && !isEx {
+					facts = facts.without(v) // recomputed (next loop iteration): the old outcome no longer binds
+				}
+			}
+		}
 		if s.up && s.p.boundary != nil && s.p.boundary[in] {
 			// the event loop takes its next event here: the activity being analysed has ended
 			if s.avoid != nil && s.avoid(in) {
@@ -433,16 +506,61 @@ func factsKey(f *factSet) string {
 	}
 	var sb strings.Builder
 	for x := f; x != nil; x = x.next {
-		fmt.Fprintf(&sb, "%p=%d,", x.v, x.kind)
+		fmt.Fprintf(&sb, "%p=%d%p,", x.v, x.kind, x.alias)
 	}
 	return sb.String()
 }
 
 func (s *ipSearch) follow(b *ssa.BasicBlock, k int, stack []*ssa.Call, facts *factSet) bool {
+	curFacts = facts
 	if s.edgeOK != nil && !s.edgeOK(b, k) {
 		return false
 	}
+	// a boolean that steers several branches (a mode flag computed once): remember which way
+	// it went, so that later branches on the same value are taken consistently
+	if iff, ok := b.Instrs[len(b.Instrs)-1].(*ssa.If); ok && len(b.Succs) == 2 && b.Succs[0] != b.Succs[1] {
+		cond, kind := iff.Cond, 1
+		if k == 1 {
+			kind = 2
+		}
+		for {
+			u, ok := cond.(*ssa.UnOp)
+			if !ok || u.Op != token.NOT {
+				break
+			}
+			cond, kind = u.X, 3-kind
+		}
+		if multiTested(cond) && facts.get(cond) == 0 {
+			facts = facts.add(cond, kind)
+		}
+	}
 	succ := b.Succs[k]
+	// boolean phis at the head of the successor (short-circuit conditions kept as values):
+	// along this edge they are a constant, or the very value computed in the predecessor
+	for _, in := range succ.Instrs {
+		ph, ok := in.(*ssa.Phi)
+		if !ok {
+			break
+		}
+		if bt, isB := ph.Type().Underlying().(*types.Basic); !isB || bt.Kind() != types.Bool {
+			continue
+		}
+		for i, p := range succ.Preds {
+			if p != b || i >= len(ph.Edges) {
+				continue
+			}
+			e := ph.Edges[i]
+			facts = facts.without(ph)
+			if kk := constKind(e); kk == 1 || kk == 2 {
+				facts = facts.add(ph, kk)
+			} else if kk := facts.get(e); kk == 1 || kk == 2 {
+				facts = facts.add(ph, kk)
+			} else {
+				facts = &factSet{v: ph, kind: 5, alias: e, next: facts}
+			}
+			break
+		}
+	}
 	key := fmt.Sprintf("%p|%s|%s", succ, stackKey(stack), factsKey(facts))
 	if s.seen[key] {
 		return false
